@@ -20,6 +20,7 @@ SSWU_S = {'fn': MOD + '.SSWU', 'op': 'sswu', 'params': ['in'], 'results': ['new'
 SUMM = FIELD_SUMM + [SQRT_SUMM, SSWU_S]
 NAMES = {0: 'HashToGroup', 1: 'EncodeToGroup'}
 PROBE = '(*' + MOD + '.Element).addAffine3Iso2'
+PROBE_FN = MOD + '.addAffine3Iso2'      # the same addition written as a function of two elements
 TWICE = [(3, 16), (3, 300)]   # second of two consecutive calls (fresh buffers / first DST buffer overwritten in place)
 LAYCOMBOS = [(3, 16), (0, 1), (64, 255), (3, 256)]   # extra buffer layouts: spare capacity, window, message and DST adjacent in one frame (both orders)
 
@@ -184,13 +185,13 @@ def run(tier, seed):
     jobs = []
     for fn in (0, 1):
         for (m, d) in combos:
-            jobs.append({'id': 'h%d_%d_%d' % (fn, m, d), 'harness': 'vh_hash', 'args': [fn, m, d, 0], 'summaries': SUMM, 'probes': [PROBE]})
+            jobs.append({'id': 'h%d_%d_%d' % (fn, m, d), 'harness': 'vh_hash', 'args': [fn, m, d, 0], 'summaries': SUMM, 'probes': [PROBE, PROBE_FN]})
         for lay in (1, 2, 3, 4):
             for (m, d) in LAYCOMBOS:
-                jobs.append({'id': 'h%d_%d_%d_L%d' % (fn, m, d, lay), 'harness': 'vh_hash', 'args': [fn, m, d, lay], 'summaries': SUMM, 'probes': [PROBE]})
+                jobs.append({'id': 'h%d_%d_%d_L%d' % (fn, m, d, lay), 'harness': 'vh_hash', 'args': [fn, m, d, lay], 'summaries': SUMM, 'probes': [PROBE, PROBE_FN]})
         for mode in (0, 1, 2, 3, 4):
             for (m, d) in (TWICE if mode < 4 else [(3, 33)]):
-                jobs.append({'id': 'tw%d_%d_%d_%d' % (fn, m, d, mode), 'harness': 'vh_hash_twice', 'args': [fn, m, d, mode], 'summaries': SUMM, 'probes': [PROBE]})
+                jobs.append({'id': 'tw%d_%d_%d_%d' % (fn, m, d, mode), 'harness': 'vh_hash_twice', 'args': [fn, m, d, mode], 'summaries': SUMM, 'probes': [PROBE, PROBE_FN]})
         for isnil in (0, 1):
             jobs.append({'id': 'nodst%d_%d' % (fn, isnil), 'harness': 'vh_hash_nodst', 'args': [fn, 3, isnil], 'summaries': SUMM})
         jobs.append({'id': 'nilmsg%d' % fn, 'harness': 'vh_hash_nilmsg', 'args': [fn, 16], 'summaries': SUMM})
